@@ -123,6 +123,16 @@ impl TcpStream {
             config.terminal_id = "00000000".to_string();
         }
 
+        // A value which does not fit its fixed-width field on the wire cannot be
+        // sent: refuse it here instead of failing in every call.
+        let feig = &config.feig_config;
+        if feig.password > 999_999
+            || feig.currency > 9_999
+            || feig.pre_authorization_amount as u64 > 999_999_999_999
+        {
+            bail!("Configuration value out of range")
+        }
+
         Ok(Self {
             config,
             inner: None,
